@@ -446,3 +446,136 @@ Definition prim_t (k : nat) : expr :=
   | 18 => Clip a b d | 19 => Where (CAnd (CGe a b) (CLe a d)) a (Const 0)
   | _ => Const 0
   end%nat.
+
+(* ======================= compositions: Transformed(base, Chain[...] | Invert(Chain[...])) ======================= *)
+(* Every layer of a chain has its own parameters: layer j reads its 7 scalars (m, g, ic, lo, hi, loc, scale) at an offset
+   in the scalars and its 3 arrays (x_pos, y_pos, derivatives) at an offset in the arrays.  The leaf terms above read arrays
+   0, 1, 2: [shift_par k] moves a term to the arrays k, k+1, k+2. *)
+Fixpoint shift_par (k : nat) (e : expr) : expr :=
+  match e with
+  | Var n => Var n
+  | Par p i => Par (k + p) (shift_ipar k i)
+  | Const z => Const z
+  | CPi => CPi
+  | Add a b => Add (shift_par k a) (shift_par k b)
+  | Sub a b => Sub (shift_par k a) (shift_par k b)
+  | Mul a b => Mul (shift_par k a) (shift_par k b)
+  | Div a b => Div (shift_par k a) (shift_par k b)
+  | Neg a => Neg (shift_par k a) | Abs a => Abs (shift_par k a) | Sign a => Sign (shift_par k a) | Sq a => Sq (shift_par k a)
+  | Exp a => Exp (shift_par k a) | Log a => Log (shift_par k a) | Tanh a => Tanh (shift_par k a) | Atanh a => Atanh (shift_par k a)
+  | Softplus a => Softplus (shift_par k a) | Log1p a => Log1p (shift_par k a) | Expm1 a => Expm1 (shift_par k a)
+  | Sqrt a => Sqrt (shift_par k a)
+  | Where c a b => Where (shift_cpar k c) (shift_par k a) (shift_par k b)
+  | Clip a lo hi => Clip (shift_par k a) (shift_par k lo) (shift_par k hi)
+  | Let1 a b => Let1 (shift_par k a) (shift_par k b)
+  end
+with shift_cpar (k : nat) (c : cond) : cond :=
+  match c with
+  | CLe a b => CLe (shift_par k a) (shift_par k b)
+  | CLt a b => CLt (shift_par k a) (shift_par k b)
+  | CAnd x y => CAnd (shift_cpar k x) (shift_cpar k y)
+  end
+with shift_ipar (k : nat) (i : iexpr) : iexpr :=
+  match i with
+  | ILit z => ILit z
+  | ISearch p e => ISearch (k + p) (shift_par k e)
+  | IAdd j z => IAdd (shift_ipar k j) z
+  | IClipBin j p => IClipBin (shift_ipar k j) (k + p)
+  end.
+
+(* the methods of a leaf whose scalars start at slot [vo]; [d] = number of scalars in scope (next let slot) *)
+Definition sv (vo i : nat) : expr := Var (vo + i).
+Definition fwd_at (l : leafk) (vo d : nat) (x : expr) : expr :=
+  match l with
+  | LAffine => affine_fwd_t (sv vo 5) (sv vo 6) x | LExp => exp_fwd_t x | LSoftplus => softplus_fwd_t x
+  | LTanh => tanh_fwd_t x | LLeaky | LLeakyOld => leaky_fwd_t (sv vo 0) (sv vo 1) (sv vo 2) x
+  | LRqs => rqs_fwd_t d (sv vo 3) (sv vo 4) x | LRqsOld => rqs_fwd_old_t d (sv vo 3) (sv vo 4) x
+  | LRqsZero => rqs_fwd_zero_t d (sv vo 3) (sv vo 4) x
+  end.
+Definition inv_at (l : leafk) (vo d : nat) (y : expr) : expr :=
+  match l with
+  | LAffine => affine_inv_t (sv vo 5) (sv vo 6) y | LExp => exp_inv_t y | LSoftplus => softplus_inv_t y
+  | LTanh => tanh_inv_t y | LLeaky => leaky_inv_t (sv vo 0) (sv vo 1) (sv vo 2) y
+  | LLeakyOld => leaky_inv_old_t (sv vo 0) (sv vo 1) (sv vo 2) y
+  | LRqs => rqs_inv_t d (sv vo 3) (sv vo 4) y | LRqsOld => rqs_inv_old_t d (sv vo 3) (sv vo 4) y
+  | LRqsZero => rqs_inv_zero_t d (sv vo 3) (sv vo 4) y
+  end.
+Definition ld_fwd_at (l : leafk) (vo d : nat) (x : expr) : expr :=
+  match l with
+  | LAffine => affine_ld_t (sv vo 6) | LExp => exp_ld_fwd_t x | LSoftplus => softplus_ld_fwd_t x
+  | LTanh => tanh_ld_fwd_t d x | LLeaky | LLeakyOld => leaky_ld_fwd_t d (sv vo 0) (sv vo 1) x
+  | LRqs => rqs_ld_fwd_t d (sv vo 3) (sv vo 4) x | LRqsOld => rqs_ld_fwd_old_t d (sv vo 3) (sv vo 4) x
+  | LRqsZero => rqs_ld_fwd_zero_t d (sv vo 3) (sv vo 4) x
+  end.
+Definition ld_inv_of_at (l : leafk) (vo d : nat) (y x : expr) : expr :=
+  match l with
+  | LAffine => Neg (affine_ld_t (sv vo 6)) | LExp => Neg x | LSoftplus => Softplus (Neg x)
+  | LTanh => tanh_ld_inv_of_t d x | LLeaky | LLeakyOld => leaky_ld_inv_of_t d (sv vo 0) (sv vo 1) y x
+  | LRqs => rqs_ld_inv_of_t d (sv vo 3) (sv vo 4) x | LRqsOld => rqs_ld_inv_of_old_t d (sv vo 3) (sv vo 4) x
+  | LRqsZero => rqs_ld_inv_of_zero_t d (sv vo 3) (sv vo 4) x
+  end.
+
+(* one step of Chain.inverse_and_log_det / transform_and_log_det: the leaf's transform (s_fwd) or inverse, with its log-det *)
+Record step := { s_kind : leafk; s_fwd : bool; s_vo : nat; s_po : nat }.
+Definition step_pt (s : step) (d : nat) (cur : expr) : expr :=
+  shift_par (s_po s) (if s_fwd s then fwd_at (s_kind s) (s_vo s) d cur else inv_at (s_kind s) (s_vo s) d cur).
+(* the log-det, given the running value [cur] and the already bound new point [x] *)
+Definition step_ld (s : step) (d : nat) (cur x : expr) : expr :=
+  shift_par (s_po s) (if s_fwd s then ld_fwd_at (s_kind s) (s_vo s) d cur else ld_inv_of_at (s_kind s) (s_vo s) d cur x).
+
+(* chain.py:  log_abs_det_jac = 0;  for b in ...:  y, ld = b.<method>(y);  log_abs_det_jac += ld.sum()
+   -- each new point (slot d) and each log-det (slot d+1) is bound once, where it is computed (let slots are absolute:
+   a term with inner lets is only meaningful at the depth it was built for); finally  fin(point) + log_abs_det_jac *)
+Fixpoint chain_t (steps : list step) (cur acc : expr) (d : nat) (fin : expr -> expr) : expr :=
+  match steps with
+  | [] => Add (fin cur) acc
+  | s :: r => Let1 (step_pt s d cur)
+               (Let1 (step_ld s (S d) cur (Var d))
+                  (chain_t r (Var d) (Add acc (Var (S d))) (S (S d)) fin))
+  end.
+Definition base_lp_at (normal : bool) (bl bs z : expr) : expr :=
+  if normal then Add (norm_logpdf_t (affine_inv_t bl bs z)) (Neg (affine_ld_t bs)) else norm_logpdf_t z.
+
+(* layout of a chain's environment: Var 0 = x, Var 1, 2 = loc, scale of a Normal base, layer j (0-based) has its scalars
+   at 3 + 7 j and its arrays at 3 j.  A layer is (kind, wrapped in Invert). *)
+Definition layer := (leafk * bool)%type.
+Definition chain_steps (outer_inverted : bool) (ls : list layer) : list step :=
+  let mk := fun (p : nat * layer) =>
+    {| s_kind := fst (snd p); s_fwd := xorb outer_inverted (snd (snd p)); s_vo := 3 + 7 * fst p; s_po := 3 * fst p |} in
+  let steps := map mk (combine (seq 0 (length ls)) ls) in
+  (* Transformed(base, Chain ls): inverse_and_log_det runs right to left; Invert(Chain ls): transform_and_log_det left to right *)
+  if outer_inverted then steps else rev steps.
+Definition chain_nvars (ls : list layer) : nat := 3 + 7 * length ls.
+Definition lp_chain (normal outer_inverted : bool) (ls : list layer) : expr :=
+  chain_t (chain_steps outer_inverted ls) (Var 0) (Const 0) (chain_nvars ls) (base_lp_at normal (Var 1) (Var 2)).
+
+(* the smallest relative distance between the two sides of any comparison the evaluation makes (branch conditions, searched
+   value vs knots, clip ties, abs at 0): a tiny margin means that one-ulp differences upstream (libm vs XLA) may select
+   another branch.  Used by the tie only to classify, never to excuse an inf/NaN difference. *)
+Section Margin.
+  Context {A : Type} (O : NumOps A).
+  Definition rel (a b : A) : A := n_div O (n_abs O (n_sub O a b)) (n_add O (one O) (n_abs O b)).
+  Fixpoint margin (en : env A) (e : expr) : A :=
+    match e with
+    | Var _ | Const _ | CPi => one O
+    | Par _ i => imargin en i
+    | Add a b | Sub a b | Mul a b | Div a b => nmin O (margin en a) (margin en b)
+    | Abs a => nmin O (rel (eval O en a) (zero O)) (margin en a)
+    | Neg a | Sign a | Sq a | Exp a | Log a | Tanh a | Atanh a | Softplus a | Log1p a | Expm1 a | Sqrt a => margin en a
+    | Where c a b => nmin O (cmargin en c) (nmin O (margin en a) (margin en b))
+    | Clip a lo hi => nmin O (nmin O (rel (eval O en a) (eval O en lo)) (rel (eval O en a) (eval O en hi))) (margin en a)
+    | Let1 a b => nmin O (margin en a) (margin (push en (eval O en a)) b)
+    end
+  with cmargin (en : env A) (c : cond) : A :=
+    match c with
+    | CLe a b | CLt a b => nmin O (rel (eval O en a) (eval O en b)) (nmin O (margin en a) (margin en b))
+    | CAnd x y => nmin O (cmargin en x) (cmargin en y)
+    end
+  with imargin (en : env A) (i : iexpr) : A :=
+    match i with
+    | ILit _ => one O
+    | ISearch p e => fold_left (fun m k => nmin O m (rel (eval O en e) k)) (par en p) (margin en e)
+    | IAdd j _ => imargin en j
+    | IClipBin j _ => imargin en j
+    end.
+End Margin.
